@@ -18,6 +18,10 @@ use crate::rng::Rng;
 use crate::util::{self, Comp};
 use std::path::{Path, PathBuf};
 
+/// markers (in the compression-level field of a base) for the special bases
+const PAYLOAD: u8 = 1;
+const HUGE: u8 = 2;
+
 struct Damage {
     family: &'static str,
     desc: String,
@@ -51,22 +55,36 @@ pub fn run(ctx: &mut Ctx) {
     // The big-tables bases hold thousands of tiny contents so that the checked blocks of the content
     // pack (content-info table, cluster tail) are larger than 4 KiB: the reader loads such blocks
     // through another path (mmap) than small ones (heap copy).
-    let bases: Vec<(Mode, Comp, bool, bool)> = if ctx.quick() {
-        vec![(Mode::OneFile, Comp::None, true, false), (Mode::TwoFiles, Comp::Zstd(3), false, false), (Mode::NoConcat, Comp::Lz4(2), false, false), (Mode::OneFile, Comp::None, false, true)]
+    // two more kinds of bases:
+    //   PAYLOAD: one small compressed cluster whose payload is flipped bit by bit (every byte x 8
+    //            single-bit masks + FF): decoder errors, early ends, short or long outputs;
+    //   HUGE:    > 16384 tiny contents, so that the content-info table exceeds 64 KiB.
+    let mut bases: Vec<(Mode, Comp, bool, bool, u8)> = if ctx.quick() {
+        vec![(Mode::OneFile, Comp::None, true, false, 0), (Mode::TwoFiles, Comp::Zstd(3), false, false, 0), (Mode::NoConcat, Comp::Lz4(2), false, false, 0), (Mode::OneFile, Comp::None, false, true, 0)]
     } else {
         let mut v = vec![];
         for m in Mode::ALL {
             for c in [Comp::None, Comp::Zstd(3), Comp::Lz4(2), Comp::Lzma(1)] {
-                v.push((m, c, c == Comp::None && m == Mode::OneFile, false));
+                v.push((m, c, c == Comp::None && m == Mode::OneFile, false, 0));
             }
         }
-        v.push((Mode::OneFile, Comp::None, false, true));
-        v.push((Mode::NoConcat, Comp::Zstd(3), false, true));
-        v.push((Mode::TwoFiles, Comp::None, false, true));
+        v.push((Mode::OneFile, Comp::None, false, true, 0));
+        v.push((Mode::NoConcat, Comp::Zstd(3), false, true, 0));
+        v.push((Mode::TwoFiles, Comp::None, false, true, 0));
         v
     };
+    bases.push((Mode::OneFile, Comp::Zstd(3), false, false, PAYLOAD));
+    bases.push((Mode::OneFile, Comp::Lz4(2), false, false, PAYLOAD));
+    bases.push((Mode::OneFile, Comp::None, false, false, HUGE));
+    if !ctx.quick() {
+        bases.push((Mode::OneFile, Comp::Lzma(1), false, false, PAYLOAD));
+        bases.push((Mode::NoConcat, Comp::Zstd(5), false, false, PAYLOAD));
+        bases.push((Mode::NoConcat, Comp::None, false, false, HUGE));
+    }
     let mut case = 0u64;
-    for (mode, comp, exhaustive, big) in bases {
+    for (mode, comp, exhaustive, big, kind) in bases {
+        let payload_base = kind == PAYLOAD;
+        let huge = kind == HUGE;
         let my = case;
         case += 1;
         if !ctx.wants(my) {
@@ -87,6 +105,27 @@ pub fn run(ctx: &mut Ctx) {
                 let len = (i * 7 + 3) % 11;
                 let hint = if comp != Comp::None && i % 3 == 0 { util::Hint::Yes } else { util::Hint::No };
                 spec.items.push(container::Item { name: format!("{:x}", i).into_bytes(), num: i as u64 * 37, data: crng.bytes(len), hint, pack: 1 });
+            }
+        } else if huge {
+            let n = 16500 + crng.below(600) as usize;
+            spec.items.clear();
+            spec.extra_packs = 0;
+            for i in 0..n {
+                let len = (i * 5 + 1) % 7;
+                spec.items.push(container::Item { name: format!("{:x}", i).into_bytes(), num: i as u64, data: crng.bytes(len), hint: util::Hint::No, pack: 1 });
+            }
+        } else if payload_base {
+            spec.items.truncate(3);
+            spec.extra_packs = 0;
+            for it in spec.items.iter_mut() {
+                it.pack = 1;
+            }
+            // one compressed cluster: its plain data spans more than one 4 KiB decode chunk and ends
+            // inside the last one
+            let lens = [3000 + crng.below(2000) as usize, 700 + crng.below(900) as usize, 40];
+            for (it, l) in spec.items.iter_mut().zip(lens) {
+                it.data = crng.low_entropy(l);
+                it.hint = util::Hint::Yes;
             }
         } else if comp != Comp::None {
             // make sure compressed clusters exist and are bigger than one decode chunk
@@ -160,6 +199,55 @@ pub fn run(ctx: &mut Ctx) {
                 damages.push(Damage { family: "not-jubako", desc: format!("{} bytes", g.len()), file: fi, apply: Box::new(move |_| g.clone()) });
             }
         }
+        // ---- damage aimed at the checked tables of every content pack (content-info table, cluster
+        // pointer table, their CRCs) and, for the payload bases, at every byte of every compressed
+        // cluster payload (which no CRC protects: C06 only — value or error)
+        for (fi, f) in files.iter().enumerate() {
+            let bytes = std::fs::read(f).unwrap();
+            for pk in container::packs_in_file(&bytes) {
+                if pk.kind != b'c' || pk.origin + pk.size > bytes.len() {
+                    continue;
+                }
+                let pack = &bytes[pk.origin..pk.origin + pk.size];
+                let le = |b: &[u8]| b.iter().enumerate().fold(0u64, |a, (i, x)| a | ((*x as u64) << (8 * i)));
+                let content_ptr = le(&pack[64..72]) as usize;
+                let cluster_ptr = le(&pack[72..80]) as usize;
+                let ncontent = le(&pack[80..84]) as usize;
+                let ncluster = le(&pack[84..88]) as usize;
+                let mut spots: Vec<usize> = vec![];
+                let regions = [(content_ptr, ncontent * 4 + 4), (cluster_ptr, ncluster * 8 + 4)];
+                for (start, len) in regions {
+                    if len == 0 || start + len > pack.len() {
+                        continue;
+                    }
+                    let k = if huge { if ctx.quick() { 14 } else { 60 } } else { 6 };
+                    for _ in 0..k {
+                        spots.push(pk.origin + start + crng.below(len as u64) as usize);
+                    }
+                    // first and last entry, and the CRC itself
+                    spots.extend_from_slice(&[pk.origin + start, pk.origin + start + len - 5, pk.origin + start + len - 4, pk.origin + start + len - 1]);
+                }
+                for p in spots {
+                    for m in [0x01u8, 0x40] {
+                        damages.push(Damage { family: "table-flip", desc: format!("byte {} ^= {:#04x} (content-pack table)", p, m), file: fi, apply: Box::new(move |b| { let mut v = b.to_vec(); v[p] ^= m; v }) });
+                    }
+                }
+                if payload_base {
+                    if let Some(dec) = crate::cpdec::decode(pack) {
+                        for c in dec.clusters.iter().filter(|c| c.comp != 0) {
+                            let cap = if ctx.quick() { 700 } else { 4000 };
+                            let positions: Vec<usize> = if c.raw_size <= cap { (0..c.raw_size).collect() } else { (0..cap).map(|_| crng.below(c.raw_size as u64) as usize).collect() };
+                            for rel in positions {
+                                let p = pk.origin + c.payload_start + rel;
+                                for m in [0x01u8, 0x02, 0x04, 0x08, 0x10, 0x20, 0x40, 0x80, 0xFF] {
+                                    damages.push(Damage { family: "payload-flip", desc: format!("byte {} ^= {:#04x} (compressed payload, offset {} of {})", p, m, rel, c.raw_size), file: fi, apply: Box::new(move |b| { let mut v = b.to_vec(); v[p] ^= m; v }) });
+                                }
+                            }
+                        }
+                    }
+                }
+            }
+        }
         let scratch = root.join("dmg");
         let mut n = 0u64;
         let keep_limit = 40; // damaged dirs kept for the model (sampled), all others are transient
@@ -167,7 +255,7 @@ pub fn run(ctx: &mut Ctx) {
         let total = damages.len();
         for (di, d) in damages.iter().enumerate() {
             // model comparison on a sample (every one of them for errors would be thousands of dirs)
-            let for_model = if big { di % 40 == 0 } else { d.family != "flip" || !exhaustive || di % 9 == 0 };
+            let for_model = if big || huge { di % 40 == 0 } else if d.family == "payload-flip" { di % 150 == 0 } else { d.family != "flip" || !exhaustive || di % 9 == 0 };
             let dir = if for_model && kept < keep_limit * 50 { kept += 1; root.join(format!("m{}", di)) } else { scratch.clone() };
             copy_dir(&orig, &dir);
             let target = dir.join(files[d.file].file_name().unwrap());
@@ -207,7 +295,7 @@ pub fn run(ctx: &mut Ctx) {
         }
         ctx.add("damaged_files_read", n);
         ctx.count(&format!("base:{}-{}", mode.name(), comp.name().split(':').next().unwrap()));
-        ctx.sample(format!("[{}] {} {} container ({} files, {} items{}): {} damaged variants read in a supervised worker", profile, mode.name(), comp.name(), files.len(), spec.items.len(), if exhaustive { ", exhaustive flips and truncations" } else if big { ", checked blocks larger than 4 KiB" } else { "" }, n));
+        ctx.sample(format!("[{}] {} {} container ({} files, {} items{}): {} damaged variants read in a supervised worker", profile, mode.name(), comp.name(), files.len(), spec.items.len(), if exhaustive { ", exhaustive flips and truncations" } else if big { ", checked blocks larger than 4 KiB" } else if huge { ", content-info table larger than 64 KiB" } else if payload_base { ", every bit of the compressed payload flipped" } else { "" }, n));
         ctx.case_done(fnv(format!("{:?}", spec).as_bytes()), n > 0);
     }
     ctx.add("worker_restarts", sup.restarts);
